@@ -33,11 +33,11 @@ pub const DEF: PropDef = PropDef {
 
 fn jobs(plan: &Plan) -> Vec<Job> {
     let t = plan.tier;
-    let mut v = entry_jobs(plan, "C04", "strings", t.pick(20, 800, 2), |d| d.flags.stringy);
+    let mut v = entry_jobs(plan, "C04", "strings", t.pick(80, 800, 2), |d| d.flags.stringy);
     for h in 0..t.pick(2, 6, 1) {
         v.push(standalone("string-entry-points", "entry-points", h, entry_points));
     }
-    for h in 0..t.pick(24, 600, 2) {
+    for h in 0..t.pick(100, 600, 2) {
         v.push(standalone("string<codec-dict>", "dictionary-generations", h, dictionary_generations));
     }
     v
